@@ -1129,6 +1129,7 @@ func c24Rules(rng *rand.Rand, profile int) (allow, deny []acl.Rule) {
 
 func c24GenSetup(rng *rand.Rand) c24Setup {
 	su := c24Setup{AutoCreate: rng.Intn(2) == 0, AutoParts: []int32{1, 1, 3}[rng.Intn(3)], FlushOnAck: rng.Intn(4) != 0, AdminAPIs: rng.Intn(8) != 0}
+	su.ACL.Enabled = true
 	su.ACL.DefaultPolicy = []string{"deny", "deny", "allow", "", "Allow "}[rng.Intn(5)]
 	for _, name := range []string{"alice", "bob", "carol", "dave"} {
 		allow, deny := c24Rules(rng, rng.Intn(9))
@@ -1163,7 +1164,18 @@ func c24GenParts(rng *rand.Rand, n int) []c24Part {
 
 func c24GenTopics(rng *rand.Rand) []c24Topic {
 	var ts []c24Topic
-	for i := 0; i < 1+rng.Intn(3); i++ {
+	n := 1 + rng.Intn(4)
+	if rng.Intn(2) == 0 && n >= 2 {
+		// names from families that the usual rule sets separate (t-* vs the rest; t-a vs t-b)
+		fam := [][]string{{"t-a", "t-b", "t-new"}, {"s-c", "s-new", "x-new"}, {"t-b", "t-new2"}, {"t-a"}}
+		for i := 0; i < n; i++ {
+			f := fam[i%len(fam)]
+			ts = append(ts, c24Topic{Name: f[rng.Intn(len(f))], Parts: c24GenParts(rng, 1+rng.Intn(2))})
+		}
+		rng.Shuffle(len(ts), func(i, j int) { ts[i], ts[j] = ts[j], ts[i] })
+		return ts
+	}
+	for i := 0; i < n; i++ {
 		ts = append(ts, c24Topic{Name: c24TopicNames[rng.Intn(len(c24TopicNames))], Parts: c24GenParts(rng, 1+rng.Intn(2))})
 	}
 	return ts
@@ -1200,9 +1212,9 @@ func c24GenReq(rng *rand.Rand, tag string, sn *c24Snap, autoCreate bool) *c24Req
 
 func c24GenReq0(rng *rand.Rand, tag string, sn *c24Snap) *c24Req {
 	api := c24APIs[rng.Intn(len(c24APIs))]
-	// the APIs with side effects that need no permission in the code deserve extra weight
-	if rng.Intn(6) == 0 {
-		api = []string{"metadata", "produce", "fetch", "offsetcommit", "listoffsets"}[rng.Intn(5)]
+	// extra weight: the API whose side effect needs no permission in the code, and the APIs judged per entry
+	if rng.Intn(4) == 0 {
+		api = []string{"metadata", "produce", "fetch", "produce", "fetch", "describegroups", "deletegroups", "describeconfigs", "offsetcommit"}[rng.Intn(9)]
 	}
 	vs := c24Versions[api]
 	rq := &c24Req{API: api, Version: vs[rng.Intn(len(vs))]}
@@ -1313,6 +1325,10 @@ func c24GenReq0(rng *rand.Rand, tag string, sn *c24Snap) *c24Req {
 		for i := 0; i < 1+rng.Intn(3); i++ {
 			rq.Groups = append(rq.Groups, c24GroupNames[rng.Intn(len(c24GroupNames))])
 		}
+		if rng.Intn(2) == 0 {
+			rq.Groups = []string{"g-a", "h-c", "g-b"}[:2+rng.Intn(2)]
+			rng.Shuffle(len(rq.Groups), func(i, j int) { rq.Groups[i], rq.Groups[j] = rq.Groups[j], rq.Groups[i] })
+		}
 	case "createtopics":
 		rq.ValidateOnly = rq.Version >= 1 && rng.Intn(5) == 0
 		for i := 0; i < 1+rng.Intn(2); i++ {
@@ -1345,8 +1361,8 @@ func c24GenReq0(rng *rand.Rand, tag string, sn *c24Snap) *c24Req {
 			rq.Res = append(rq.Res, x)
 		}
 	case "describeconfigs":
-		for i := 0; i < 1+rng.Intn(3); i++ {
-			x := c24Res{Type: []int8{2, 2, 2, 4, 8}[rng.Intn(5)], Name: c24TopicNames[rng.Intn(len(c24TopicNames))]}
+		for i := 0; i < 1+rng.Intn(4); i++ {
+			x := c24Res{Type: []int8{2, 2, 2, 4, 8}[rng.Intn(5)], Name: []string{"t-a", "t-b", "s-c", "t-a", "t-new", "x-new"}[rng.Intn(6)]}
 			if x.Type != 2 {
 				x.Name = "1"
 			}
@@ -1420,7 +1436,7 @@ func c24Shape(ents []c24Ent) (allowed, denied, unperm, deniedAct int) {
 }
 
 // runCase executes one case inside a synctest bubble and judges every request.
-func c24RunCase(t *testing.T, r *verifkit.Run, cs *c24Case, label string, gen func(i int, sn *c24Snap) *c24Req) {
+func c24RunCase(t *testing.T, r *verifkit.Run, cs *c24Case, label string, gen func(i int, sn *c24Snap, w *c24World) *c24Req) {
 	w := c24NewWorld(t, cs.Setup)
 	defer w.s.teardown()
 	w.seed()
@@ -1437,7 +1453,7 @@ func c24RunCase(t *testing.T, r *verifkit.Run, cs *c24Case, label string, gen fu
 		if gen != nil {
 			// requests are drawn against the state left by the previous ones, so that "valid member",
 			// "existing topic" ... stay meaningful; the witness lists them, a replay takes them as given
-			rq := gen(i, before)
+			rq := gen(i, before, w)
 			if rq == nil {
 				break
 			}
@@ -1584,7 +1600,7 @@ func c24RunCase(t *testing.T, r *verifkit.Run, cs *c24Case, label string, gen fu
 				r.Count("denied_entries_with_authorization_error_and_no_data", 1)
 			}
 		}
-		if i == 0 && strings.HasSuffix(label, "/0") {
+		if (i == 0 || rq.API == "produce") && strings.HasSuffix(label, "/0") {
 			r.Sample(map[string]any{"setup": cs.Setup, "first_request": rq, "principal": c24ReqPrincipal(rq), "entries": ents, "reply": res, "changes": changes})
 		}
 	}
@@ -1641,7 +1657,7 @@ func TestVerifC24Seq(t *testing.T) {
 		"offset commit/fetch are judged by the group permission only (the code's and the ACL model's mapping: offsets are group state), not additionally by a topic permission as in Apache Kafka",
 		"produce with acks=0 has no reply by protocol, so only inertness is demanded there",
 		"'leak nothing' (title) is read as: no record bytes (statement) and, for denied entries, none of the values the entry asks for (committed offset, members, assignment, config values)")
-	n := r.N(260, 6000)
+	n := r.N(500, 8000)
 	replay := verifkit.Replay()
 	for ci := 0; ci < n; ci++ {
 		rng := r.Rand(ci)
@@ -1661,21 +1677,173 @@ func TestVerifC24Seq(t *testing.T) {
 				c24RunCase(t, r, cs, label, nil)
 				return
 			}
-			c24RunCase(t, r, cs, label, func(i int, sn *c24Snap) *c24Req {
+			c24RunCase(t, r, cs, label, func(i int, sn *c24Snap, w *c24World) *c24Req {
 				if i >= nreq {
 					return nil
 				}
-				return c24GenReq(rng, fmt.Sprintf("%d.%d", ci, i), sn, cs.Setup.AutoCreate)
+				rq := c24GenReq(rng, fmt.Sprintf("%d.%d", ci, i), sn, cs.Setup.AutoCreate)
+				if rng.Intn(2) == 0 && rq.ConnPrincipal == "" {
+					// workload shaping only: prefer a sender for whom the body mixes entitled and not entitled entries
+					names := []string{"alice", "bob", "carol", "dave", ""}
+					rng.Shuffle(len(names), func(a, b int) { names[a], names[b] = names[b], names[a] })
+					keep := rq.ClientID
+					for _, nm := range names {
+						rq.ClientID = nil
+						if nm != "" {
+							rq.ClientID = kmsg.StringPtr(nm)
+						}
+						if a, d, _, _ := c24Shape(w.entries(rq, sn)); a > 0 && d > 0 {
+							keep = rq.ClientID
+							break
+						}
+					}
+					rq.ClientID = keep
+				}
+				return rq
 			})
 		})
 		if replay != nil {
 			break
 		}
 	}
-	r.Floor("entries_denied_that_would_have_acted", int64(r.N(300, 6000)))
-	r.Floor("mixed_requests", int64(r.N(40, 800)))
-	r.Floor("allowed_entries_served_in_mixed_requests", int64(r.N(20, 400)))
+	r.Floor("entries_denied_that_would_have_acted", int64(r.N(600, 9000)))
+	r.Floor("mixed_requests", int64(r.N(100, 1500)))
+	r.Floor("allowed_entries_served_in_mixed_requests", int64(r.N(50, 800)))
 	r.Floor("apis_with_denied_entries_that_would_have_acted", 17)
-	r.Floor("denied_entries_with_authorization_error_and_no_data", int64(r.N(500, 10000)))
+	r.Floor("denied_entries_with_authorization_error_and_no_data", int64(r.N(1000, 15000)))
+}
+
+// ---------------------------------------------------------------- directed leg: every API aimed at seeded state, by principals without any right
+
+func c24DirectedReqs(cid *string, conn string) []*c24Req {
+	mk := func(api string, v int16, f func(rq *c24Req)) *c24Req {
+		rq := &c24Req{API: api, Version: v, ClientID: cid, ConnPrincipal: conn, Group: "g-a", MemberRef: "valid", GenRef: "valid"}
+		if f != nil {
+			f(rq)
+		}
+		return rq
+	}
+	tp := func(name string, parts ...c24Part) []c24Topic { return []c24Topic{{Name: name, Parts: parts}} }
+	return []*c24Req{
+		mk("apiversions", 3, nil),
+		mk("findcoordinator", 3, nil),
+		mk("metadata", 9, func(rq *c24Req) { rq.Topics = []c24Topic{{Name: "t-a"}} }),
+		mk("metadata", 12, func(rq *c24Req) { rq.NullTopics = true }),
+		mk("metadata", 1, func(rq *c24Req) { rq.Topics = []c24Topic{{Name: "m-new"}} }),
+		mk("metadata", 12, func(rq *c24Req) { rq.Topics = []c24Topic{{Name: "t-a"}, {Name: "m-new2"}, {Name: "t-b", ByID: true}} }),
+		mk("produce", 9, func(rq *c24Req) { rq.Acks = -1; rq.Topics = tp("t-a", c24Part{P: 0, ID: "<d.1>", NRec: 2}, c24Part{P: 2, ID: "<d.2>", NRec: 1}) }),
+		mk("produce", 3, func(rq *c24Req) { rq.Acks = 1; rq.Topics = tp("t-b", c24Part{P: 1, ID: "<d.3>", NRec: 1}) }),
+		mk("produce", 7, func(rq *c24Req) { rq.Acks = 0; rq.Topics = tp("s-c", c24Part{P: 0, ID: "<d.4>", NRec: 1}) }),
+		mk("produce", 9, func(rq *c24Req) { rq.Acks = -1; rq.Topics = tp("p-new", c24Part{P: 0, ID: "<d.5>", NRec: 1}) }),
+		mk("produce", 9, func(rq *c24Req) { rq.Acks = 0; rq.Topics = tp("p-new0", c24Part{P: 0, ID: "<d.6>", NRec: 1}) }),
+		mk("fetch", 11, func(rq *c24Req) { rq.Topics = tp("t-a", c24Part{P: 0, Off: 0}, c24Part{P: 1, Off: 0}) }),
+		mk("fetch", 12, func(rq *c24Req) { rq.MaxWaitMs = 5; rq.Topics = tp("s-c", c24Part{P: 0, Off: 1}) }),
+		mk("fetch", 13, func(rq *c24Req) { rq.Topics = tp("t-b", c24Part{P: 0, Off: 0}) }),
+		mk("fetch", 12, func(rq *c24Req) { rq.Topics = tp("f-new", c24Part{P: 0, Off: 0}) }),
+		mk("listoffsets", 4, func(rq *c24Req) { rq.Topics = tp("t-a", c24Part{P: 0, Off: -1}, c24Part{P: 1, Off: -2}) }),
+		mk("listoffsets", 1, func(rq *c24Req) { rq.Topics = tp("l-new", c24Part{P: 0, Off: -2}) }),
+		mk("offsetforleaderepoch", 3, func(rq *c24Req) { rq.Topics = tp("t-a", c24Part{P: 0, Off: 0}) }),
+		mk("offsetcommit", 3, func(rq *c24Req) { rq.Topics = tp("t-a", c24Part{P: 0, Off: 777001, Meta: "meta<d.1>"}, c24Part{P: 1, Off: 777002, Meta: "meta<d.2>"}) }),
+		mk("offsetcommit", 3, func(rq *c24Req) { rq.Group = "h-c"; rq.Topics = tp("s-c", c24Part{P: 0, Off: 777003, Meta: "meta<d.3>"}) }),
+		mk("offsetfetch", 5, func(rq *c24Req) { rq.Topics = tp("t-a", c24Part{P: 0}) }),
+		mk("offsetfetch", 5, func(rq *c24Req) { rq.Group = "h-c"; rq.Topics = tp("s-c", c24Part{P: 0}) }),
+		mk("offsetfetch", 5, func(rq *c24Req) { rq.NullTopics = true }),
+		mk("joingroup", 4, func(rq *c24Req) { rq.Topics = []c24Topic{{Name: "t-a"}} }),
+		mk("joingroup", 4, func(rq *c24Req) { rq.MemberRef = ""; rq.Topics = []c24Topic{{Name: "t-a"}} }),
+		mk("joingroup", 4, func(rq *c24Req) { rq.Group = "j-new"; rq.MemberRef = ""; rq.Topics = []c24Topic{{Name: "t-b"}} }),
+		mk("syncgroup", 4, nil),
+		mk("heartbeat", 4, nil),
+		mk("leavegroup", 2, nil),
+		mk("leavegroup", 4, nil),
+		mk("describegroups", 5, func(rq *c24Req) { rq.Groups = []string{"g-a", "h-c", "nope"} }),
+		mk("listgroups", 4, nil),
+		mk("listgroups", 0, nil),
+		mk("deletegroups", 2, func(rq *c24Req) { rq.Groups = []string{"h-c", "g-a"} }),
+		mk("createtopics", 2, func(rq *c24Req) { rq.Topics = []c24Topic{{Name: "c-new", Count: 2}} }),
+		mk("createtopics", 0, func(rq *c24Req) { rq.Topics = []c24Topic{{Name: "c-new0", Count: 1}, {Name: "t-a", Count: 1}} }),
+		mk("deletetopics", 2, func(rq *c24Req) { rq.Topics = []c24Topic{{Name: "t-b"}} }),
+		mk("deletetopics", 0, func(rq *c24Req) { rq.Topics = []c24Topic{{Name: "s-c"}, {Name: "nope"}} }),
+		mk("createpartitions", 3, func(rq *c24Req) { rq.Topics = []c24Topic{{Name: "t-a", Count: 6}} }),
+		mk("createpartitions", 0, func(rq *c24Req) { rq.Topics = []c24Topic{{Name: "s-c", Count: 2}} }),
+		mk("alterconfigs", 1, func(rq *c24Req) { rq.Res = []c24Res{{Type: 2, Name: "t-a", Set: [][2]string{{"retention.ms", "7777777"}}}, {Type: 2, Name: "t-b", Set: [][2]string{{"segment.bytes", "7777"}}}} }),
+		mk("alterconfigs", 1, func(rq *c24Req) { rq.Res = []c24Res{{Type: 4, Name: "1", Set: [][2]string{{"retention.ms", "1"}}}} }),
+		mk("describeconfigs", 4, func(rq *c24Req) { rq.Res = []c24Res{{Type: 2, Name: "t-a"}, {Type: 4, Name: "1"}, {Type: 8, Name: "1"}, {Type: 2, Name: "t-b", Names: []string{"retention.ms"}}} }),
+	}
+}
+
+func TestVerifC24Directed(t *testing.T) {
+	r := verifkit.Start(t, "C24", "directed")
+	defer r.Finish("same world, monitors and oracle as leg seq, but a fixed enumeration: every API key (43 directed requests: each aimed at the seeded records / stable groups / committed offsets / topic config, or at a topic or group that does not exist yet) x principal without any right (listed with empty rules, unknown, anonymous without client id, blank client id, connection principal overriding a privileged client id, listed under default-allow with a deny-everything rule, broken ACL JSON, ACL enabled without config) x auto-create on/off x flush-on-ack on/off; plus a principal entitled to t-a/g-a only, sending the mixed variants. Every request is issued against the state left by the previous ones (which must be the seeded state, since nothing may change)",
+		"see leg seq")
+	type who struct {
+		name   string
+		cid    *string
+		conn   string
+		policy string
+		rules  []acl.PrincipalRules
+		via    string
+	}
+	root := acl.PrincipalRules{Name: "root", Allow: []acl.Rule{{Action: "*", Resource: "*", Name: "*"}}}
+	whos := []who{
+		{"listed_empty", kmsg.StringPtr("bob"), "", "deny", []acl.PrincipalRules{root, {Name: "bob"}}, "env_json"},
+		{"unknown", kmsg.StringPtr("ghost"), "", "deny", []acl.PrincipalRules{root, {Name: "bob"}}, "direct"},
+		{"anonymous_nil_client_id", nil, "", "", []acl.PrincipalRules{root}, "env_file"},
+		{"anonymous_blank_client_id", kmsg.StringPtr(" "), "", "deny", []acl.PrincipalRules{root}, "direct"},
+		{"conn_principal_over_root_client_id", kmsg.StringPtr("root"), "mallory", "deny", []acl.PrincipalRules{root}, "env_json"},
+		{"default_allow_deny_all_rule", kmsg.StringPtr("bob"), "", "allow", []acl.PrincipalRules{root, {Name: "bob", Deny: []acl.Rule{{Action: "*", Resource: "*", Name: "*"}}}}, "env_json"},
+		{"default_allow_deny_all_beats_allow", kmsg.StringPtr("bob"), "", "allow", []acl.PrincipalRules{{Name: "bob", Allow: []acl.Rule{{Action: "*", Resource: "*", Name: "*"}}, Deny: []acl.Rule{{}}}}, "direct"},
+		{"broken_acl_json", kmsg.StringPtr("root"), "", "allow", []acl.PrincipalRules{root}, "env_broken_json"},
+		{"acl_enabled_without_config", kmsg.StringPtr("root"), "", "allow", []acl.PrincipalRules{root}, "env_no_config"},
+	}
+	n := 0
+	for _, wh := range whos {
+		for _, auto := range []bool{true, false} {
+			for _, foa := range []bool{true, false} {
+				cs := &c24Case{Setup: c24Setup{ACL: acl.Config{Enabled: true, DefaultPolicy: wh.policy, Principals: wh.rules}, Via: wh.via, AutoCreate: auto, AutoParts: 1, FlushOnAck: foa, AdminAPIs: true},
+					Reqs: c24DirectedReqs(wh.cid, wh.conn)}
+				label := fmt.Sprintf("directed/%s/auto=%v/flush=%v/%d", wh.name, auto, foa, n)
+				n++
+				synctest.Test(t, func(t *testing.T) { c24RunCase(t, r, cs, label, nil) })
+			}
+		}
+	}
+	// a principal entitled to exactly t-a and g-a sends requests that mix entitled and not entitled entries
+	mia := acl.PrincipalRules{Name: "mia", Allow: []acl.Rule{{Action: "produce", Resource: "topic", Name: "t-a"}, {Action: "fetch", Resource: "topic", Name: "t-a"},
+		{Action: "group_read", Resource: "group", Name: "g-a"}, {Action: "group_write", Resource: "group", Name: "g-a"}, {Action: "group_admin", Resource: "group", Name: "g-a"}}}
+	cid := kmsg.StringPtr("mia")
+	mixed := func() []*c24Req {
+		return []*c24Req{
+			{API: "produce", Version: 9, ClientID: cid, Acks: -1, Topics: []c24Topic{{Name: "t-b", Parts: []c24Part{{P: 0, ID: "<m.1>", NRec: 1}}}, {Name: "t-a", Parts: []c24Part{{P: 0, ID: "<m.2>", NRec: 2}}}, {Name: "s-c", Parts: []c24Part{{P: 0, ID: "<m.3>", NRec: 1}}}}},
+			{API: "produce", Version: 9, ClientID: cid, Acks: 1, Topics: []c24Topic{{Name: "t-a", Parts: []c24Part{{P: 1, ID: "<m.4>", NRec: 1}}}, {Name: "mx-new", Parts: []c24Part{{P: 0, ID: "<m.5>", NRec: 1}}}}},
+			{API: "fetch", Version: 12, ClientID: cid, Topics: []c24Topic{{Name: "t-a", Parts: []c24Part{{P: 0, Off: 0}}}, {Name: "t-b", Parts: []c24Part{{P: 0, Off: 0}}}, {Name: "s-c", Parts: []c24Part{{P: 0, Off: 0}}}}},
+			{API: "fetch", Version: 13, ClientID: cid, Topics: []c24Topic{{Name: "t-b", Parts: []c24Part{{P: 0, Off: 0}}}, {Name: "t-a", Parts: []c24Part{{P: 1, Off: 0}}}}},
+			{API: "listoffsets", Version: 4, ClientID: cid, Topics: []c24Topic{{Name: "t-a", Parts: []c24Part{{P: 0, Off: -1}}}, {Name: "t-b", Parts: []c24Part{{P: 0, Off: -1}}}}},
+			{API: "offsetforleaderepoch", Version: 3, ClientID: cid, Topics: []c24Topic{{Name: "t-b", Parts: []c24Part{{P: 0}}}, {Name: "t-a", Parts: []c24Part{{P: 0}}}}},
+			{API: "describeconfigs", Version: 4, ClientID: cid, Res: []c24Res{{Type: 2, Name: "t-b"}, {Type: 2, Name: "t-a"}, {Type: 4, Name: "1"}}},
+			{API: "describegroups", Version: 5, ClientID: cid, Groups: []string{"h-c", "g-a"}},
+			{API: "metadata", Version: 9, ClientID: cid, Topics: []c24Topic{{Name: "t-a"}, {Name: "mx-new2"}}},
+			{API: "offsetcommit", Version: 3, ClientID: cid, Group: "h-c", MemberRef: "valid", GenRef: "valid", Topics: []c24Topic{{Name: "t-a", Parts: []c24Part{{P: 0, Off: 888001, Meta: "meta<m.1>"}}}}},
+			{API: "offsetcommit", Version: 3, ClientID: cid, Group: "g-a", MemberRef: "valid", GenRef: "valid", Topics: []c24Topic{{Name: "t-a", Parts: []c24Part{{P: 0, Off: 888002, Meta: "meta<m.2>"}}}}},
+			{API: "deletegroups", Version: 2, ClientID: cid, Groups: []string{"h-c", "g-a"}},
+		}
+	}
+	for _, auto := range []bool{true, false} {
+		for _, policy := range []string{"deny", "allow"} {
+			rules := []acl.PrincipalRules{mia}
+			if policy == "allow" {
+				// under default-allow the same entitlement needs explicit denies for everything else
+				m := mia
+				m.Deny = []acl.Rule{{Action: "*", Resource: "topic", Name: "t-b"}, {Action: "*", Resource: "topic", Name: "s-*"}, {Action: "*", Resource: "topic", Name: "mx-*"}, {Action: "*", Resource: "group", Name: "h-*"}, {Action: "admin", Resource: "cluster", Name: "*"}}
+				rules = []acl.PrincipalRules{m}
+			}
+			cs := &c24Case{Setup: c24Setup{ACL: acl.Config{Enabled: true, DefaultPolicy: policy, Principals: rules}, Via: "env_json", AutoCreate: auto, AutoParts: 1, FlushOnAck: true, AdminAPIs: true}, Reqs: mixed()}
+			label := fmt.Sprintf("directed/mixed/%s/auto=%v/%d", policy, auto, n)
+			n++
+			synctest.Test(t, func(t *testing.T) { c24RunCase(t, r, cs, label, nil) })
+		}
+	}
+	r.Floor("apis_with_denied_entries_that_would_have_acted", 19)
+	r.Floor("entries_denied_that_would_have_acted", 1200)
+	r.Floor("allowed_entries_served_in_mixed_requests", 12)
 }
 
